@@ -107,6 +107,20 @@ SCENARIO("write_tangent_zero") {
   bt.dump("buf"); out("expect", T::Zero().coeffs());
 }
 
+// ---- a view is a VIEW: reads through a const view constructed earlier see later writes to the buffer
+SCENARIO("view_sees_writes") {
+  Buf bx("x", Rep); Buf bt("t", DoF);
+  G Y = sym_group<G>("y"); T u = sym_tangent<T>("u");
+  MG m(bx.data()); CG c(bx.data()); MT mt(bt.data()); CT ct(bt.data());
+  out_int("const_view_data_is_buffer", c.coeffs().data() == bx.data() ? 1 : 0);
+  out_int("mutable_view_data_is_buffer", m.coeffs().data() == bx.data() ? 1 : 0);
+  out_int("const_tangent_view_data_is_buffer", ct.coeffs().data() == bt.data() ? 1 : 0);
+  m = Y; mt = u;
+  out("const_view_after_write", c.coeffs()); out("expected", Y.coeffs());
+  out("inverse_through_const_view", c.inverse().coeffs()); out("inverse_expected", Y.inverse().coeffs());
+  out("const_tangent_view_after_write", ct.coeffs()); out("t_expected", u.coeffs());
+}
+
 // ---- copy / move / cross-kind construction and assignment preserve coefficients exactly
 SCENARIO("copies") {
   Buf bx("x", Rep); Buf bt("t", DoF);
